@@ -162,6 +162,33 @@ def run(ctx):
             if not ok:
                 rep.violation('failing-input', {'text': q, 'why': 'bare quarter handling', 'plain': t0.qqs,
                                                 'clean_qq': t1.pp_desc, 'after_half': t2.pp_desc})
+    # ... and this does not depend on what the same Tract was parsed with before: clean_qq used once (at creation, by a
+    # committed parse or a committed preprocess) must not stick to a later parse without it
+    for i in range(ctx.budget(60, 3000)):
+        r = rng.fork(800000 + i)
+        q = r.choice(gen.QUARTERS)
+        text = r.choice([q, f'{q}, {r.choice(gen.QUARTERS)}', f'N/2 and the {q}', f'Lot 1, {q}', f'{q} of the {r.choice(gen.QUARTERS)}'])
+        how = r.below(3)
+        try:
+            if how == 0:
+                t = pytrs.Tract(text, config='clean_qq', parse_qq=True)
+                t.parse(clean_qq=False)
+            elif how == 1:
+                t = pytrs.Tract(text)
+                t.parse(clean_qq=True)
+                t.parse(clean_qq=False)
+            else:
+                t = pytrs.Tract(text)
+                t.preprocess(clean_qq=True, commit=True)
+                t.parse(clean_qq=False)
+            fresh = pytrs.Tract(text, parse_qq=True)
+            rep.count()
+            rep.nontrivial(('sticky', text, how))
+            if (t.qqs, t.lots) != (fresh.qqs, fresh.lots):
+                rep.violation('failing-input', {'text': text, 'sequence': ['clean_qq at creation', 'parse(clean_qq=True) first', 'preprocess(clean_qq=True, commit=True) first'][how],
+                                                'why': 'a bare quarter is still read as an aliquot by a parse without clean_qq', 'observed': t.qqs, 'fresh': fresh.qqs})
+        except Exception as e:  # noqa
+            rep.violation('failing-input', {'text': text, 'why': f'raised {type(e).__name__}: {e}'})
     ctx.compare(items)
 
 
